@@ -858,6 +858,12 @@ def m_hasattr(i, args, kw, st, node):
             v = i.class_attr(args[0].mod, args[0].cnode, args[1], st, None)
             if v is not None:
                 return True
+        if args[0].cnode is not None:
+            r = i.probe_attr(args[0], args[1], st, node)
+            if r is not None:
+                return r
+            if i.repo.find_method(args[0].mod, args[0].cnode, "__getattr__") is not None:
+                return Unknown("bool")
         if args[0].ident not in st.havoc:
             return False
     return Unknown("bool")
@@ -941,6 +947,27 @@ def m_urandom(i, args, kw, st, node):
     return ABytes(n if isinstance(n, int) else None, "bytes")
 
 
+def m_map(i, args, kw, st, node):
+    if len(args) == 2 and isinstance(args[1], (tuple, list, range)) and len(args[1]) <= 64:
+        return [i.call_value(args[0], [x], {}, st, node) for x in args[1]]
+    return UNK
+
+
+def m_dict(i, args, kw, st, node):
+    if not args:
+        return dict(kw)
+    v = args[0]
+    if isinstance(v, dict):
+        d = dict(v)
+        d.update(kw)
+        return d
+    if isinstance(v, (list, tuple)) and all(isinstance(x, tuple) and len(x) == 2 and is_concrete(x[0]) for x in v):
+        d = dict((x[0], x[1]) for x in v)
+        d.update(kw)
+        return d
+    return UNK
+
+
 def m_super(i, args, kw, st, node):
     return UNK
 
@@ -962,7 +989,7 @@ EXT_MODELS = {
     "int": m_int, "bool": m_bool, "bytes": m_bytes("bytes"),
     "bytearray": m_bytes("bytearray"), "str": m_str,
     "isinstance": m_isinstance, "range": m_range, "tuple": m_seq(tuple),
-    "list": m_seq(list), "dict": lambda i, a, k, s, n: dict(k) if not a else (dict(a[0]) if isinstance(a[0], dict) else UNK),
+    "list": m_seq(list), "dict": m_dict, "map": m_map,
     "set": m_seq(frozenset), "frozenset": m_seq(frozenset),
     "sorted": m_sorted, "reversed": lambda i, a, k, s, n: list(reversed(a[0])) if a and isinstance(a[0], (list, tuple, bytes, str, range)) else UNK,
     "enumerate": m_enumerate, "zip": m_zip, "sum": m_sum,
